@@ -22,6 +22,7 @@ import (
 	"crypto/sha256"
 	"encoding/hex"
 	"errors"
+	"math"
 	"net/http"
 	"net/http/httputil"
 	"strconv"
@@ -153,7 +154,10 @@ func currentAge(resp *http.Response) time.Duration {
 	}
 
 	if value, err := strconv.Atoi(strings.TrimSpace(resp.Header.Get("Age"))); err == nil && value > 0 {
-		age = max(age, time.Duration(value)*time.Second)
+		// delta-seconds have no upper limit. Values, which cannot be represented as duration, are capped
+		const maxSeconds = int(math.MaxInt64 / int64(time.Second))
+
+		age = max(age, time.Duration(min(value, maxSeconds))*time.Second)
 	}
 
 	return age
